@@ -20,6 +20,21 @@ Python-side operations (`_t["ops"]`, JSON-able lists):
   ["mutslot", slot, cat, unit]   the caller edits its own dict (no call; nothing may change)
   ["conv", cat, unit, xhex] ["catdef", cat] ["qdef", cat, unit] ["sconv", cat, unit, xhex]
   ["newid"] ["byid", id] ["systems"] ["getcur"]
+  ["reg", cat, unit]             o = ValueObject(cat, unit); Register(o)      (objects are numbered 0, 1, ... in this order)
+  ["rereg", i]                   Register(object i) again
+  ["kill", i]                    the caller drops its only reference to object i (weak-reference callbacks run)
+  ["objunit", i, unit]           object i .unit = unit   (the caller's own assignment)
+  ["update"]                     UpdateObjects()
+  ["reset"]                      ResetInstance()
+  ["obscur"] ["obsunit"]         on_current.Register(observer) / on_unit_changed.Register(observer)
+  ["setcap", ref, caption]       ref.SetCaption(caption)
+  ["setro", ref, flag]           ref.SetReadOnly(flag)
+  ["eqother", ref]               ref == "not a unit system"
+  ["setclass", ok]               SetDefaultUnitSystemClass(a subclass of UnitSystem that adds nothing  |  a class without the interface)
+  ["excls", name, ids]           raise NoTemplateError() / InvalidTemplateError(ids)   (the module's error classes)
+A value object is what the manager uses of an AbstractValueWithQuantityObject: GetCategory() and an ASSIGNABLE
+attribute `unit` (barril's own Scalar/Array have a read-only `unit` property: UpdateObjects raises on them after the
+state changed - finding C17-updateobjects-readonly-unit, kept out of the generators).
 ["kept", id] = the object returned by the last successful AddUnitSystem(id, ...) of the history
 (possibly removed since); ["cur"] = the object GetCurrent() returns now (possibly the null system).
 An operation whose reference does not exist yet is skipped on both sides."""
@@ -37,14 +52,26 @@ RULE = ("histories of calls on a private UnitSystemManager and on the UnitSystem
         "histories of length <= 40 over 3 ids (+1 unknown) x categories length/depth/time (+'' and an "
         "unregistered one) x 3 units each (+ cross-type and unknown units), mappings given / omitted / "
         "caller-owned dicts shared between calls and edited later, templates before and after adds, "
-        "SetCurrent(registered / removed / null-system object / None); distinct = distinct history; "
+        "SetCurrent(registered / removed / null-system object / None); value objects (categories as above, own units) "
+        "registered once or twice, edited by the caller, dropped, UpdateObjects(), ResetInstance() and re-registration of "
+        "the observers, SetCaption/SetReadOnly, == with a non-system, SetDefaultUnitSystemClass (a subclass that adds "
+        "nothing / a class without the interface), the module's two error classes; a second bounded-exhaustive alphabet of 21 "
+        "state-changing calls over objects/observers/flags (+4 queries; depth 3 quick, depth 4 thorough); "
+        "distinct = distinct history; "
         "non-trivial = at least one accepted state-changing call")
 EXHAUSTIVE = {"quick": True, "thorough": True}   # over the stated alphabet and depth; the random part is not
 ASSUMPTIONS = [
     "oop_ext Callback semantics relied on by the manager (Register idempotent per bound method, Unregister of an "
     "absent method ignored, one call per registered function) are modelled as one 'listening' bit per system",
     "listeners of on_current/on_unit_changed only record; they do not call back into the manager",
-    "UpdateObjects is a no-op (no value object is registered with the private manager)",
+    "registered value objects are harness objects with GetCategory() and an assignable attribute `unit` (not barril "
+    "Scalars: their read-only `unit` makes UpdateObjects raise, reported finding); CPython reference counting runs the "
+    "weak-reference callback as soon as the harness drops its only reference",
+    "the order in which UpdateObjects visits the set of wraps does not matter (objects are independent)",
+    "how many wraps a live object has in _object_refs is modelled (one per Register call) but only 'at least one' and "
+    "'none of a dead object' are compared with the private set",
+    "SetDefaultUnitSystemClass: the class of later systems is not part of the modelled state; the accepted class of the "
+    "generators is a subclass of UnitSystem that adds nothing",
     "ConvertToCurrent float results stay within K*eps*M of the exact model (checked, not proved)",
     "ConvertScalarToCurrent: CreateCopy(unit=u) is modelled as 'u belongs to the quantity type of the category' "
     "(exact for non-legacy, non-<unknown> units, the only ones generated)",
@@ -56,7 +83,10 @@ UNKNOWN_ID = "zz"
 CATS = ["length", "depth", "time"]
 UNITS = {"length": ["m", "cm", "km"], "depth": ["m", "cm", "km"], "time": ["s", "min", "h"]}
 SLOT_INIT = [[["length", "m"]], [["length", "cm"], ["time", "s"], ["depth", "m"]]]
-MUTATING = {"template", "add", "remove", "setcur", "setdef", "rmcat"}
+MUTATING = {"setclass", "template", "add", "remove", "setcur", "setdef", "rmcat", "reg", "rereg", "kill", "objunit", "update", "reset",
+            "obscur", "obsunit", "setcap", "setro"}
+OBJ_UNITS = ["mm", "ft", "ms"]
+FINDING_SITE_RO = "UpdateObjects on an object whose unit cannot be assigned"
 
 
 # ------------------------------------------------------------------------------------------ protocol
@@ -104,8 +134,22 @@ def proto(op):
         return dict(k=k, cat=_s(op[1]))
     if k == "qdef":
         return dict(k=k, cat=_s(op[1]), unit=_s(op[2]))
-    if k in ("newid", "systems", "getcur"):
+    if k in ("newid", "systems", "getcur", "update", "reset", "obscur", "obsunit", "excls"):
         return dict(k=k)
+    if k == "reg":
+        return dict(k=k, cat=_s(op[1]), unit=_s(op[2]))
+    if k in ("rereg", "kill"):
+        return dict(k=k, i=int(op[1]))
+    if k == "objunit":
+        return dict(k=k, i=int(op[1]), unit=_s(op[2]))
+    if k == "setcap":
+        return dict(k=k, ref=_pref(op[1]), cap=_s(op[2]))
+    if k == "setro":
+        return dict(k=k, ref=_pref(op[1]), ro=bool(op[2]))
+    if k == "eqother":
+        return dict(k=k, ref=_pref(op[1]))
+    if k == "setclass":
+        return dict(k=k, ok=bool(op[1]))
     raise ValueError(op)
 
 
@@ -177,6 +221,27 @@ def _fmt(op):
         return "GetQuantityDefaultUnit(ObtainQuantity(%r, %r))" % (op[2], op[1])
     if k == "byid":
         return "GetUnitSystemById(%r)" % op[1]
+    if k == "reg":
+        return "obj[next] = ValueObject(category=%r, unit=%r); Register(obj[next])" % (op[1], op[2])
+    if k == "rereg":
+        return "Register(obj[%d])" % op[1]
+    if k == "kill":
+        return "del obj[%d]   (the caller's only reference)" % op[1]
+    if k == "objunit":
+        return "obj[%d].unit = %r   (caller's own assignment)" % (op[1], op[2])
+    if k == "setcap":
+        return "%s.SetCaption(%r)" % (r(op[1]), op[2])
+    if k == "setro":
+        return "%s.SetReadOnly(%r)" % (r(op[1]), bool(op[2]))
+    if k == "eqother":
+        return "%s == 'not a unit system'" % r(op[1])
+    if k == "excls":
+        return "raise %s(%s)" % (op[1], "" if op[2] is None else repr(op[2]))
+    if k == "setclass":
+        return "SetDefaultUnitSystemClass(%s)" % ("class Sub(UnitSystem): pass" if op[1] else "class NoInterface: pass")
+    if k in ("update", "reset", "obscur", "obsunit"):
+        return {"update": "UpdateObjects()", "reset": "ResetInstance()", "obscur": "on_current.Register(observer)",
+                "obsunit": "on_unit_changed.Register(observer)"}[k]
     return {"newid": "GetNewId()", "systems": "GetUnitSystems()", "getcur": "GetCurrent()"}[k]
 
 
@@ -185,6 +250,36 @@ def show(c):
 
 
 # ------------------------------------------------------------------------------------------ real code
+_CLASSES = []
+
+
+def _system_classes():
+    """(a subclass of UnitSystem that adds nothing, a class that does not implement IUnitSystem)"""
+    if not _CLASSES:
+        from barril.units.unit_system import UnitSystem
+
+        class SubUnitSystem(UnitSystem):
+            pass
+
+        class NoInterface:
+            pass
+
+        _CLASSES.extend([SubUnitSystem, NoInterface])
+    return _CLASSES
+
+
+class ValueObject:
+    """What UnitSystemManager.Register/UpdateObjects use of a value object."""
+    __slots__ = ("category", "unit", "__weakref__")
+
+    def __init__(self, category, unit):
+        self.category = category
+        self.unit = unit
+
+    def GetCategory(self):
+        return self.category
+
+
 class Session:
     """One private manager, the objects it handed out (allocation order) and the callback log."""
 
@@ -195,6 +290,8 @@ class Session:
         self.log = []
         self.objs = [self.m.GetCurrent()]          # index 0: the null system
         self.kept = {}
+        self.vobjs = []                            # value objects in registration order (None once dropped)
+        self.vlast = []                            # [category, unit when last seen alive]
         self.slots = [dict(map(tuple, p)) for p in SLOT_INIT]
         self._cb1 = lambda s: self.log.append(["cur", s])      # resolved to an index after the call
         self._cb2 = lambda c, u: self.log.append(["unit", _s(c), None if u is None else _s(u)])
@@ -232,10 +329,47 @@ class Session:
             return None
         return bool(o.on_default_unit.Contains(f))
 
+    def vobj(self, i):
+        """-> the live value object number i, or None"""
+        return self.vobjs[i] if 0 <= i < len(self.vobjs) else None
+
+    def wraps(self):
+        """per value object the number of wraps in the manager's private set, and the number of wraps whose
+        referent is gone; (None, None) when the private attribute is not there"""
+        refs = getattr(self.m, "_object_refs", None)
+        if refs is None:
+            return None, None
+        try:
+            targets = [w.ref() for w in list(refs)]
+        except Exception:
+            return None, None
+        per = [sum(1 for t in targets if t is o) if o is not None else 0 for o in self.vobjs]
+        dead = sum(1 for t in targets if t is None)
+        del targets
+        return per, dead
+
+    def objects(self):
+        per, dead = self.wraps()
+        out = []
+        for i, o in enumerate(self.vobjs):
+            if o is not None:
+                self.vlast[i][1] = o.unit
+            out.append([_s(self.vlast[i][0]), _s(self.vlast[i][1]) if isinstance(self.vlast[i][1], str) else repr(self.vlast[i][1]),
+                        o is not None, None if per is None else per[i]])
+        return out, dead
+
+    def observers(self):
+        try:
+            return [bool(self.m.on_current.Contains(self._cb1)), bool(self.m.on_unit_changed.Contains(self._cb2))]
+        except Exception:
+            return None
+
     def snapshot(self):
         m = self.m
         t = m.GetUnitSystemTemplate()
+        objs, dead = self.objects()
         return dict(
+            objs=objs, deadrefs=dead, obs=self.observers(),
             reg=[[_s(k), self.idx(v)] for k, v in m.GetUnitSystems().items()],
             heap=[[None if o.GetId() is None else _s(o.GetId()), _s(o.GetCaption()),
                    [[_s(c), _s(u)] for c, u in o.GetUnitsMapping().items()], bool(o.IsReadOnly()), self.listening(o)]
@@ -310,6 +444,58 @@ class Session:
                 return dict(ok=dict(systems=[[_s(i), self.idx(v)] for i, v in m.GetUnitSystems().items()]))
             if k == "getcur":
                 return dict(ok=dict(ref=self.idx(m.GetCurrent())))
+            if k == "reg":
+                o = ValueObject(op[1], op[2])
+                self.vobjs.append(o)
+                self.vlast.append([op[1], op[2]])
+                m.Register(o)
+                return dict(ok=None)
+            if k in ("rereg", "kill", "objunit"):
+                o = self.vobj(op[1])
+                if o is None:
+                    return dict(skip=True)
+                if k == "rereg":
+                    m.Register(o)
+                elif k == "objunit":
+                    o.unit = op[2]
+                else:
+                    self.vlast[op[1]][1] = o.unit
+                    self.vobjs[op[1]] = None
+                    del o                           # the last reference: the weak-reference callbacks run here
+                return dict(ok=None)
+            if k == "update":
+                m.UpdateObjects()
+                return dict(ok=None)
+            if k == "reset":
+                m.ResetInstance()
+                return dict(ok=None)
+            if k == "obscur":
+                m.on_current.Register(self._cb1)
+                return dict(ok=None)
+            if k == "obsunit":
+                m.on_unit_changed.Register(self._cb2)
+                return dict(ok=None)
+            if k in ("setcap", "setro", "eqother"):
+                ex, o = self.ref(op[1])
+                if not ex:
+                    return dict(skip=True)
+                if k == "setcap":
+                    o.SetCaption(op[2])
+                    return dict(ok=None)
+                if k == "setro":
+                    o.SetReadOnly(bool(op[2]))
+                    return dict(ok=None)
+                return dict(ok=dict(bool=bool(o == "not a unit system")))
+            if k == "setclass":
+                m.SetDefaultUnitSystemClass(_system_classes()[0 if op[1] else 1])
+                return dict(ok=None)
+            if k == "excls":
+                from barril.units import unit_system_manager as usm
+                if op[1] == "NoTemplateError":
+                    raise usm.NoTemplateError()
+                if op[2] is None:
+                    raise usm.InvalidTemplateError()
+                raise usm.InvalidTemplateError(list(op[2]))
             return dict(err="other", detail="unknown op")
         except Exception as e:
             return dict(err=err_kind(e), detail=type(e).__name__)
@@ -328,6 +514,8 @@ def impl(c, ctx):
                 snap = dict(broken=repr(e))
             steps.append(dict(r=r, ev=s.events(n), s=snap))
             k = op[0] + ("!" + r["err"] if "err" in r else ("~skip" if "skip" in r and op[0] != "mutslot" else ""))
+            if op[0] == "excls":
+                k = "excls:" + op[1] + ("()" if op[2] is None else "(%d ids)" % len(op[2]))
             ctx.notes.setdefault("step_kinds", {})
             ctx.notes["step_kinds"][k] = ctx.notes["step_kinds"].get(k, 0) + 1
         return dict(steps=steps)
@@ -374,6 +562,17 @@ def _cmp_snap(si, sm):
             return "object %d differs (id, caption, mapping, read_only): impl=%s model=%s" % (i, a[:4], b[:4])
         if a[4] is not None and a[4] != b[4]:
             return "object %d: manager's listener registered: impl=%s model=%s" % (i, a[4], b[4])
+    if len(si["objs"]) != len(sm["objs"]):
+        return "number of value objects differs: impl=%d model=%d" % (len(si["objs"]), len(sm["objs"]))
+    for i, (a, b) in enumerate(zip(si["objs"], sm["objs"])):
+        if a[:3] != b[:3]:
+            return "value object %d differs (category, unit, alive): impl=%s model=%s" % (i, a[:3], b[:3])
+        if a[3] is not None and bool(a[3]) != bool(b[3]):     # how many wraps a live object has is not compared
+            return "value object %d: referenced from _object_refs: impl=%s model=%s" % (i, a[3], b[3])
+    if si["deadrefs"] is not None and si["deadrefs"] != sm["deadrefs"]:
+        return "wraps of dead objects left in _object_refs: impl=%s model=%s" % (si["deadrefs"], sm["deadrefs"])
+    if si["obs"] is not None and si["obs"] != sm["obs"]:
+        return "observer registered on (on_current, on_unit_changed): impl=%s model=%s" % (si["obs"], sm["obs"])
     return None
 
 
@@ -420,11 +619,32 @@ def _alphabet():
     return mut, qry
 
 
-def _exhaustive(depth):
-    mut, qry = _alphabet()
-    for pre in itertools.product(mut, repeat=depth - 1):
-        for last in mut + qry:
-            yield _case(list(pre) + [last])
+def _alphabet2():
+    """value objects, observers, caption / read-only flag (with just enough manager calls to move the current system)"""
+    A, B = "a", "system 1"
+    mut = [
+        ["add", A, [["length", "m"]], False, None],
+        ["add", B, [["length", "cm"], ["time", "s"]], True, None],
+        ["remove", A],
+        ["setcur", None], ["setcur", ["kept", A]], ["setcur", ["kept", B]],
+        ["setdef", ["cur"], "length", "km"],
+        ["setdef", ["kept", B], "time", "min"],
+        ["rmcat", ["cur"], "length"],
+        ["reg", "length", "mm"], ["reg", "time", "ms"],
+        ["rereg", 0], ["kill", 0], ["objunit", 0, "ft"], ["update"],
+        ["reset"], ["obscur"], ["obsunit"],
+        ["setcap", ["kept", A], "X"], ["setro", ["kept", A], True], ["setro", ["cur"], False],
+    ]
+    qry = [["eq", ["kept", A], ["kept", B]], ["eqother", ["cur"]], ["getcur"], ["catdef", "length"]]
+    return mut, qry
+
+
+def _exhaustive(depth, which=(1, 2)):
+    for w in which:
+        mut, qry = _alphabet() if w == 1 else _alphabet2()
+        for pre in itertools.product(mut, repeat=depth - 1):
+            for last in mut + qry:
+                yield _case(list(pre) + [last])
 
 
 def _rand_pairs(rng, full_bias=0.5):
@@ -471,7 +691,44 @@ def _random_history(rng, maxlen, unregistered=True):
     slots = [dict(map(tuple, p)) for p in SLOT_INIT]      # the caller's dicts, tracked without barril
     ops = []
     registered = []                                        # only a bias for the choices below
+    nobj, live = 0, []                                     # value objects created / still held (a bias as well)
+    p_new = rng.choice([0.0, 0.25, 0.25, 0.5])             # share of the object / observer / flag calls in this history
     for _ in range(n):
+        if rng.random() < p_new:
+            q = rng.random()
+            if q < 0.22:
+                ops.append(["reg", _rand_cat(rng), rng.choice(OBJ_UNITS + ["m", "s"])])
+                live.append(nobj)
+                nobj += 1
+            elif q < 0.30:
+                ops.append(["rereg", rng.choice(live) if live and rng.random() < 0.8 else rng.randrange(nobj + 1)])
+            elif q < 0.40:
+                i = rng.choice(live) if live and rng.random() < 0.8 else rng.randrange(nobj + 1)
+                ops.append(["kill", i])
+                if i in live:
+                    live.remove(i)
+            elif q < 0.48:
+                ops.append(["objunit", rng.choice(live) if live and rng.random() < 0.8 else rng.randrange(nobj + 1),
+                            rng.choice(OBJ_UNITS)])
+            elif q < 0.58:
+                ops.append(["update"])
+            elif q < 0.64:
+                ops.append(["reset"])
+            elif q < 0.71:
+                ops.append(["obscur"])
+            elif q < 0.78:
+                ops.append(["obsunit"])
+            elif q < 0.86:
+                ops.append(["setcap", _rand_ref(rng), rng.choice(["A", "B", "X", ""])])
+            elif q < 0.92:
+                ops.append(["setro", _rand_ref(rng), rng.random() < 0.5])
+            elif q < 0.94:
+                ops.append(["setclass", rng.random() < 0.6])
+            elif q < 0.97:
+                ops.append(["eqother", _rand_ref(rng)])
+            else:
+                ops.append(["eq", _rand_ref(rng), _rand_ref(rng)])
+            continue
         r = rng.random()
         if r < 0.20:
             i = rng.choice(IDS)
@@ -566,6 +823,37 @@ def _scripted():
                  ["add", B, [["time", "s"]], False, None], ["add", B, None, False, None], ["eq", ["kept", A], ["kept", B]]])
     yield _case([["add", A, [["length", "m"], ["time", "s"]], False, None], ["add", B, [["time", "s"], ["length", "m"]], False, None],
                  ["eq", ["kept", A], ["kept", B]], ["eq", ["kept", A], ["kept", A]], ["eq", ["cur"], ["kept", A]]])
+    # the module's error classes (no call of the manager raises NoTemplateError or an InvalidTemplateError without ids)
+    yield _case([["excls", "NoTemplateError", None], ["excls", "InvalidTemplateError", None],
+                 ["excls", "InvalidTemplateError", []], ["excls", "InvalidTemplateError", ["a", None]]])
+    # objects registered before any system exists follow the first system; a default-unit change reaches them only
+    # at the next UpdateObjects / SetCurrent; a dead object is left alone
+    yield _case([["reg", "length", "mm"], ["reg", "time", "ms"], ["reg", "", "ft"], ["reg", "no such category", "ft"],
+                 ["add", A, [["length", "m"]], False, None], ["setdef", ["cur"], "length", "km"], ["update"],
+                 ["reg", "length", "mm"], ["kill", 0], ["setdef", ["cur"], "time", "h"], ["setcur", ["cur"]],
+                 ["add", B, [["length", "cm"]], False, None], ["setcur", ["kept", B]], ["setcur", None],
+                 ["objunit", 4, "ft"], ["remove", B], ["remove", A], ["update"]])
+    # one object, two wraps; both leave when it dies; Register brings the object to the current system each time
+    yield _case([["add", A, [["length", "m"]], False, None], ["reg", "length", "mm"], ["objunit", 0, "ft"], ["rereg", 0],
+                 ["rereg", 0], ["objunit", 0, "ft"], ["kill", 0], ["rereg", 0], ["objunit", 0, "mm"], ["kill", 0], ["update"]])
+    # the null system holds a default while none is current: objects are not touched
+    yield _case([["setdef", ["cur"], "length", "km"], ["reg", "length", "mm"], ["update"], ["setcur", None], ["setcur", ["cur"]],
+                 ["update"], ["reg", "length", "ft"]])
+    # ResetInstance: the observers are gone, the manager's own listener on the current system is not
+    yield _case([["add", A, [["length", "m"]], False, None], ["reset"], ["setdef", ["cur"], "length", "km"], ["setcur", None],
+                 ["obscur"], ["setcur", ["kept", A]], ["setdef", ["cur"], "length", "cm"], ["obsunit"], ["obsunit"],
+                 ["setdef", ["cur"], "length", "m"], ["rmcat", ["cur"], "length"], ["reset"], ["reset"], ["obsunit"],
+                 ["setdef", ["kept", A], "time", "s"], ["remove", A]])
+    # the class of new systems: one that lacks the interface is refused; a subclass that adds nothing changes nothing
+    yield _case([["setclass", False], ["add", A, [["length", "m"]], False, None], ["setclass", True], ["setclass", False],
+                 ["add", B, [["length", "m"]], False, None], ["template", [["length", "m"]], None], ["add", C, None, True, None],
+                 ["eq", ["kept", A], ["kept", B]], ["setcur", ["kept", C]], ["setdef", ["cur"], "length", "km"], ["remove", C]])
+    # caption / read-only flag: stored, compared by ==, enforced by nothing
+    yield _case([["add", A, [["length", "m"]], True, None], ["add", B, [["length", "m"]], True, None], ["eq", ["kept", A], ["kept", B]],
+                 ["setcap", ["kept", B], "A"], ["eq", ["kept", A], ["kept", B]], ["setro", ["kept", B], False],
+                 ["eq", ["kept", A], ["kept", B]], ["setdef", ["kept", A], "length", "km"], ["rmcat", ["kept", A], "length"],
+                 ["setro", ["kept", A], False], ["setcap", ["kept", A], ""], ["eqother", ["kept", A]], ["setcur", None],
+                 ["setro", ["cur"], False], ["setcap", ["cur"], "nil"], ["eqother", ["cur"]], ["eq", ["cur"], ["cur"]]])
 
 
 def setup(ctx):
@@ -599,6 +887,23 @@ class _Ref:
         self.reg = []               # ordered list of (id, object index)
         self.cur = None             # object index or None
         self.tmpl = None
+        self.meta = [(None, "Null", True)]     # per object index: (id, caption, read-only flag)
+        self.objs = []              # value objects: dict(cat, unit, alive, alt) - alt: a second acceptable unit
+        self.obs = [True, True]     # the observer is registered on on_current / on_unit_changed
+
+    def bring(self, ob, alt_old=False):
+        """the manager brings a value object to the current system"""
+        if self.cur is None or not ob["alive"]:
+            return
+        d = self.maps[self.cur].get(ob["cat"]) if ob["cat"] else None
+        if d is not None:
+            if alt_old:
+                ob["alt"] = ob["unit"]
+            ob["unit"] = d
+
+    def bring_all(self, alt_old=False):
+        for ob in self.objs:
+            self.bring(ob, alt_old)
 
     def registered(self, i):
         return any(o == i for _k, o in self.reg)
@@ -621,6 +926,8 @@ def _observe(s):
                 order=[list(o.GetUnitsMapping()) for o in s.objs],
                 cur=s.idx(m.GetCurrent()),
                 tmpl=None if t is None else dict(t.GetUnitsMapping()),
+                meta=[(o.GetId(), o.GetCaption(), bool(o.IsReadOnly())) for o in s.objs],
+                objs=[(s.vlast[i][0], o.unit if o is not None else s.vlast[i][1], o is not None) for i, o in enumerate(s.vobjs)],
                 nlog=len(s.log))
 
 
@@ -672,6 +979,19 @@ def oracle(c, ctx):
                 unregistered_arg = True
         elif k == "byid":
             reject = R.lookup(op[1]) is None
+        elif k in ("rereg", "kill", "objunit"):
+            skip = s.vobj(op[1]) is None
+        elif k in ("setcap", "setro", "eqother"):
+            skip = not s.ref(op[1])[0]
+        elif k == "setclass":
+            reject = not op[1]
+        elif k == "excls":
+            r = s.call(op)
+            if r.get("err") != "runtime":
+                return _fail(i, op, "NoTemplateError and InvalidTemplateError are RuntimeErrors that can be raised",
+                             observed=r)
+            continue
+        obs_before = list(R.obs)
         if k == "conv" or k == "sconv":
             cat, unit, x = op[1], op[2], float.fromhex(op[3])
             tu = R.current_map().get(cat) if cat else None
@@ -683,7 +1003,8 @@ def oracle(c, ctx):
                 except Exception:
                     reject = True
         # ---- the call
-        ref_obj = s.ref(op[1])[1] if k in ("setcur", "setdef", "rmcat", "getdef") and not skip else None
+        ref_obj = s.ref(op[1])[1] if k in ("setcur", "setdef", "rmcat", "getdef", "setcap", "setro") and not skip else None
+        eq_objs = [s.idx(s.ref(op[j])[1]) for j in (1, 2)] if k == "eq" and not skip else None
         r = s.call(op)
         after = _observe(s)
         new = s.events(nlog)
@@ -716,9 +1037,11 @@ def oracle(c, ctx):
             R.ids.append(ident)
             o = len(R.maps) - 1
             R.reg.append((ident, o))
+            R.meta.append((ident, ident.upper(), bool(op[3])))
             if R.cur is None:
                 R.cur = o
                 expect = [[["cur", o]]]
+                R.bring_all()
             if r["ok"]["ref"] != o:
                 return _fail(i, op, "AddUnitSystem returns the new system", observed=r)
         elif k == "remove":
@@ -731,6 +1054,7 @@ def oracle(c, ctx):
                 else:
                     R.cur = R.reg[0][1] if R.reg else None
                 expect = [[["cur", R.cur if R.cur is not None else 0]]]
+                R.bring_all()
         elif k == "template":
             R.tmpl = dict(map(tuple, op[1]))
         elif k == "setcur":
@@ -740,11 +1064,17 @@ def oracle(c, ctx):
             expect = [[["cur", o if o is not None else 0]]]
             if same:
                 expect.append([])       # re-selecting the current system: the text does not say (don't care)
+            R.bring_all(alt_old=same)
         elif k == "setdef":
             o = s.idx(ref_obj)
             R.maps[o][op[2]] = op[3]
             if R.cur == o:
                 expect = [[["unit", _s(op[2]), _s(op[3])]]]
+                # Register's docstring promises that the objects follow; the code waits for the next UpdateObjects:
+                # either is accepted
+                for ob in R.objs:
+                    if ob["alive"] and ob["cat"] and ob["cat"] == op[2]:
+                        ob["alt"] = op[3]
             elif R.cur is None and o == 0:
                 expect = [[], [["unit", _s(op[2]), _s(op[3])]]]   # the null system while none is current: don't care
         elif k == "rmcat":
@@ -786,7 +1116,40 @@ def oracle(c, ctx):
         elif k == "getcur":
             if r["ok"]["ref"] != (R.cur if R.cur is not None else 0):
                 return _fail(i, op, "GetCurrent returns the current system or the null system", observed=r)
+        elif k == "reg":
+            R.objs.append(dict(cat=op[1], unit=op[2], alive=True, alt=None))
+            R.bring(R.objs[-1])
+        elif k == "rereg":
+            R.bring(R.objs[op[1]])
+        elif k == "kill":
+            R.objs[op[1]]["alive"] = False
+        elif k == "objunit":
+            R.objs[op[1]]["unit"] = op[2]
+        elif k == "update":
+            R.bring_all()
+        elif k == "reset":
+            R.obs = [False, False]
+        elif k == "obscur":
+            R.obs[0] = True
+        elif k == "obsunit":
+            R.obs[1] = True
+        elif k == "setcap":
+            o = s.idx(ref_obj)
+            R.meta[o] = (R.meta[o][0], op[2], R.meta[o][2])
+        elif k == "setro":
+            o = s.idx(ref_obj)
+            R.meta[o] = (R.meta[o][0], R.meta[o][1], bool(op[2]))
+        elif k == "eq":
+            a_, b_ = eq_objs
+            w = R.meta[a_] == R.meta[b_] and R.maps[a_] == R.maps[b_]
+            if r["ok"]["bool"] != w:
+                return _fail(i, op, "two unit systems are equal exactly when id, caption, default units and read-only "
+                                    "flag are equal", observed=r, required=w)
+        elif k == "eqother":
+            if r["ok"]["bool"]:
+                return _fail(i, op, "a unit system is not equal to something that is no unit system", observed=r)
         # ---- state and log after an accepted call
+        expect = [[e for e in lg if obs_before[0 if e[0] == "cur" else 1]] for lg in expect]
         if new not in expect:
             return _fail(i, op, "listeners are notified exactly for changes of the current system and for "
                                 "default-unit changes made to the current system",
@@ -806,6 +1169,23 @@ def oracle(c, ctx):
                          observed=after["maps"], required=R.maps)
         if after["tmpl"] != R.tmpl:
             return _fail(i, op, "template", observed=after["tmpl"], required=R.tmpl)
+        if after["meta"] != R.meta:
+            return _fail(i, op, "id, caption and read-only flag of every system (SetCaption / SetReadOnly change one "
+                                "field of one system)", observed=after["meta"], required=R.meta)
+        if len(after["objs"]) != len(R.objs):
+            return _fail(i, op, "registered value objects", observed=after["objs"])
+        for j, (got, ob) in enumerate(zip(after["objs"], R.objs)):
+            ok_units = [ob["unit"]] + ([ob["alt"]] if ob["alt"] is not None else [])
+            if got[0] != ob["cat"] or got[2] != ob["alive"] or got[1] not in ok_units:
+                return _fail(i, op, "registered objects follow the current system: Register, UpdateObjects and every "
+                                    "selection of a current system give each live object the current default unit of its "
+                                    "category (if there is one); nothing else changes an object",
+                             object=j, observed=list(got), required=dict(category=ob["cat"], unit=ok_units, alive=ob["alive"]))
+            ob["unit"], ob["alt"] = got[1], None
+        dead = s.wraps()[1]
+        if dead:
+            return _fail(i, op, "an object that died is dropped from the manager's set of registered objects",
+                         observed="%d weak reference(s) to dead objects are still kept" % dead)
     return None
 
 
@@ -839,9 +1219,33 @@ def shrink(case, failure, ctx):
 
 
 # ------------------------------------------------------------------------------------------ known finding
+def _replay_readonly_unit():
+    """Register(Scalar(1.0, 'm', 'length')); AddUnitSystem('a', 'A', {'length': 'km'}) raises AttributeError (the
+    `unit` property of barril's value objects has no setter) AFTER the system was registered, made current and
+    announced.  Run directly on the real code: the generators never register such an object."""
+    from barril.units import Scalar
+    from barril.units.unit_system_manager import UnitSystemManager
+
+    m = UnitSystemManager()
+    announced = []
+    m.on_current.Register(lambda system: announced.append(system.GetId()))
+    scalar = Scalar(1.0, "m", "length")
+    m.Register(scalar)
+    try:
+        m.AddUnitSystem("a", "A", {"length": "km"})
+    except Exception as e:
+        if list(m.GetUnitSystems()) or m.GetCurrent().GetId() is not None or announced:
+            return dict(clause="a rejected call changes nothing", call_site=FINDING_SITE_RO,
+                        call="Register(Scalar(1.0, 'm', 'length')); AddUnitSystem('a', 'A', {'length': 'km'})",
+                        error=repr(e), registered=list(m.GetUnitSystems()), current=m.GetCurrent().GetId(),
+                        on_current=announced, unit_of_the_scalar=scalar.GetUnit())
+    return None
+
+
 def matches_known(entry, case, failure):
     """Excuses exactly: the first violated clause is at a SetCurrent call whose argument is a system that
-    is not registered at that moment."""
+    is not registered at that moment.  (The second finding, FINDING_SITE_RO, needs an object whose `unit` cannot be
+    assigned; no generated history registers one, so no generated failure matches it.)"""
     site = (entry.get("matcher") or {}).get("call_site")
     if site != FINDING_SITE or not isinstance(failure, dict):
         return False
@@ -855,6 +1259,8 @@ def matches_known(entry, case, failure):
 def replay_finding(entry, ctx):
     """add 'a'; remove 'a'; SetCurrent(the removed system)  (the witness of
     `setCurrent_unregistered_counterexample`)"""
+    if (entry.get("matcher") or {}).get("call_site") == FINDING_SITE_RO:
+        return _replay_readonly_unit()
     c = _case([["add", "a", None, False, None], ["remove", "a"], ["setcur", ["kept", "a"]]])
     f = oracle(c, ctx)
     return f if (f and matches_known(entry, c, f)) else None
